@@ -100,3 +100,51 @@ class Proxy:
 
     def missing(self, rule, what):
         return self._c.missing(self._rid, what)
+
+
+_LEN_RX = r"^&?call:[^()]*::len\("
+_NONEMPTY = [  # (operator, constant, truth) spellings of "the collection is not empty"
+    ("Eq", "0", False), ("Ne", "0", True), ("Gt", "0", True), ("Ge", "1", True),
+    ("Lt", "1", False), ("Le", "0", False)]
+
+
+def emptiness_conds(f, bb, about=None):
+    """Splits the must-hold conditions at block bb that test a collection's size into
+    (non-empty spellings, others). `about` restricts to conditions whose text contains it.
+    Used for "the work is skipped only when there is nothing to do": the block that does the
+    work may stand under `not empty` in any spelling, never under a different size test."""
+    import re
+    good, other = [], []
+    for c in f.conds_at(bb):
+        if c[0] != "eq":
+            continue
+        s = str(c[1])
+        if about is not None and about not in s:
+            continue
+        if re.match(r"^call:[^()]*::is_empty\(", s):
+            (good if c[2] is False else other).append(c)
+            continue
+        m = re.match(r"^\((.*) (Eq|Ne|Gt|Ge|Lt|Le) const:(\d+)\)$", s)
+        if m and re.search(_LEN_RX, m.group(1)):
+            (good if (m.group(2), m.group(3), c[2]) in _NONEMPTY else other).append(c)
+    return good, other
+
+
+def conjoined_case_tests(f, bb):
+    """pairs of must-hold-true conditions at bb that test ONE value for the upper- and the
+    lower-case form of one letter (`starts_with('H') && starts_with('h')`): never satisfiable,
+    the two spellings are alternatives"""
+    import re
+    seen = {}
+    out = []
+    for c in f.conds_at(bb):
+        if c[0] != "eq" or c[2] is not True:
+            continue
+        m = re.match(r"^(.*)const:'([A-Za-z])'(.*)$", str(c[1]))
+        if not m:
+            continue
+        k = (m.group(1), m.group(2).lower(), m.group(3))
+        if k in seen and seen[k] != m.group(2):
+            out.append((seen[k], m.group(2)))
+        seen[k] = m.group(2)
+    return out
